@@ -856,6 +856,7 @@ def search(ctx, sc, only=None):
                 guarded(ctx, what + ' aliasing', lambda: search_alias_values(ctx, im, cls, attr))
         if not only or only[1] in ('__getitem__', 'add', 'observe', 'parent', 'add_observer', 'add_sight_line', 'add_foil_detector', '__init__') + MEMBER_LIST_ATTRS:
             guarded(ctx, c['name'] + ' type filter', lambda: search_type_filter(ctx, im, cls))
+            guarded(ctx, c['name'] + ' two groups', lambda: search_two_groups(ctx, im, cls))
             guarded(ctx, c['name'] + ' rejected operations', lambda: search_rejected_ops(ctx, im, cls))
             guarded(ctx, c['name'] + ' membership', lambda: search_membership(ctx, im, cls))
             guarded(ctx, c['name'] + ' retrieval histories', lambda: search_retrieval_histories(ctx, im, cls))
@@ -1198,6 +1199,52 @@ def search_alias_values(ctx, im, cls, attr):
                     return
 
 
+def search_two_groups(ctx, im, cls):
+    """OPEN FINDING probe (deterministic, every tier and seed): an observer that already is a member of a live group of the
+    same class is adopted by a second group through each adopting entry point.  The code accepts it, re-parents it, and the
+    first group keeps listing it -> the first group has a member whose scene-graph parent it is not.  This is exactly the
+    hypothesis excluded in `scene_inv_step` and the negation proved in `cross_group_add_steals` (Props/C15.lean).
+    Signature `C15:<defining class>.<entry point>:member-of-two-groups` - keyed on the class that *defines* the entry point
+    (one code site each), so an override that does the same in a subclass would be a new signature.  Nothing else is
+    attributed to it: every other way of obtaining a member whose parent is not the group stays an ordinary violation."""
+    entries = [a for a in ('add_observer', 'add_sight_line', 'add_foil_detector') if hasattr(cls, a)] + list(im.mlist)
+    if im.c['family'] == 'observer0D':
+        entries.append('__init__')
+    for entry in entries:
+        owner_cls = [k for k in cls.__mro__ if entry in vars(k)]
+        site = (owner_cls[0].__name__ if owner_cls else cls.__name__) + '.' + entry
+        g1 = cls()
+        o = make_member(im.member_kind, 'shared')
+        o.name = 'shared'
+        im.add(g1, o)
+        g2 = None
+        if entry == '__init__':
+            try:
+                g2 = cls(observers=[o]); st = 'ok'
+            except Exception as e:  # noqa
+                st = ename(exc_kind(e))
+        else:
+            g2 = cls()
+            if entry in im.mlist:
+                st = outcome(lambda: setattr(g2, entry, [o]))
+            else:
+                st = outcome(lambda: getattr(g2, entry)(o))
+        ctx.case(key=('S', im.name, 'two-groups', entry))
+        still_listed = any(m is o for m in im.members(g1))
+        if st == 'ok' and still_listed and o.parent is not g1 and g2 is not None and o.parent is g2 and any(m is o for m in im.members(g2)):
+            ctx.fail('C15:%s:member-of-two-groups' % site,
+                     'g1, g2 = %s(), %s(); g1.%s(o); then %s adopts o for g2: accepted, o.parent is g2, but g1 still lists o '
+                     '(len(g1) == %d) -> a member of g1 whose scene-graph parent is not g1 (observed with %s)' % (
+                         im.name, im.name, 'add_foil_detector' if im.c['family'] == 'bolometer' else 'add_observer',
+                         'g2 = %s(observers=[o])' % im.name if entry == '__init__' else ('g2.%s = [o]' % entry if entry in im.mlist else 'g2.%s(o)' % entry),
+                         len(g1), im.name),
+                     dict(cls=im.name, attr=entry, site=site))
+        elif st == 'ok' and still_listed and o.parent is not g1:
+            # listed by g1, parent neither g1 nor a consistent adoption by g2: not the recorded finding
+            ctx.fail('C15:%s.%s:parent' % (im.name, entry), 'after %s on a second group the observer is listed by the first group with parent %r' % (entry, o.parent),
+                     dict(cls=im.name, attr=entry))
+
+
 def search_rejected_ops(ctx, im, cls):
     """a refused group operation leaves EVERYTHING untouched.  Two groups of the class and a loose observer live in one
     World; every entry point that validates (add method(s), member-list setters, constructor argument, broadcast setters'
@@ -1292,6 +1339,14 @@ def search_rejected_ops(ctx, im, cls):
         before = snapshot(world, owner, other, objs)
         if outcome(lambda: cls(observers=[objs['a'], objs['loose'], w])) != 'ok' and snapshot(world, owner, other, objs) != before:
             ctx.count('S:observation:refused-constructor-keeps-earlier-adoptions')
+    # Observations (witness of Props/C15 `engine_guard_in_loop_partial` replayed on the code - `cross_group_add_steals` is reported by search_two_groups; not
+    # claimed by the property sentence, reported to the coordinator, counted here so that a change of behaviour is visible)
+    if 'render_engine' in im.desc and im.c['family'] == 'observer0D':
+        from raysect.core.workflow import SerialEngine
+        world, owner, other, objs = scene()
+        new = SerialEngine()
+        if outcome(lambda: setattr(owner, 'render_engine', [new, 5])) != 'ok' and objs['a'].render_engine is new:
+            ctx.count('S:observation:render_engine-guard-in-loop-partial-update')
     # broadcast setters: the length check is the validation
     for name in im.bcast:
         d = im.desc[name]
